@@ -59,7 +59,7 @@ func checkLiveLoop(p *Prog, r *Report, live *ssa.Function) {
 	reqT := "*" + modPath + "/pkg/scan.Request"
 	rangeParam := live.Params[2]
 	i := 0
-	for _, s := range Paths(g).From(L) {
+	for _, s := range PathsInl(g).From(L) {
 		if s.IsSelectPanicTail() {
 			continue
 		}
@@ -253,7 +253,7 @@ func checkLiveWiring(p *Prog, r *Report, live *ssa.Function) {
 			continue
 		}
 		k := 0
-		for _, s := range Paths(fn).Segs {
+		for _, s := range PathsInl(fn).Segs {
 			if !s.Has(sink) {
 				continue
 			}
@@ -334,7 +334,7 @@ func checkLiveWiring(p *Prog, r *Report, live *ssa.Function) {
 					}
 					okU := true
 					n := 0
-					for _, s := range Paths(lf).Segs {
+					for _, s := range PathsInl(lf).Segs {
 						if !s.Returns() {
 							continue
 						}
